@@ -511,3 +511,196 @@ theorem post_envGet {st : St} (hI : Inv st) {e : Nat} (he : e < st.frames.size) 
     · exact hrest
 
 end Grol.E
+
+namespace Grol.E
+
+/-- storing a well scoped non-reference value in frame `e` -/
+theorem post_store {st : St} (hI : Inv st) {e : Nat} (he : e < st.frames.size) {g : Frame → Frame}
+    {name : String} {v : Obj} (hv : okObj st.frames.size v = true) (hnr : notRef v = true)
+    (hg : ∀ f, (g f).depth = f.depth ∧ (g f).outer = f.outer ∧ (g f).function = f.function ∧
+      (g f).store = setStore f.store name v) :
+    Post (modifyFrame e g) st (fun _ _ => True) := by
+  refine post_modifyFrame hI he ?_ (fun _ _ _ _ => trivial)
+  intro f hf
+  obtain ⟨h1, h2, h3, h4⟩ := hg f
+  refine ⟨h1, h2, h3, ?_⟩
+  rw [h4]
+  exact (hI.frameOk hf).store.setStore name hv (notRef_clause hnr)
+
+theorem post_envCreate {st : St} (hI : Inv st) {e : Nat} (he : e < st.frames.size) (name : String) {val : Obj}
+    (hval : okObj st.frames.size val = true) : Post (envCreate e name val) st OkO := by
+  unfold envCreate
+  refine Post.bind (post_valueOf hI hval) ?_
+  rintro v s hIs _ ⟨rfl, hv, hnr⟩
+  refine Post.bind (Q := fun _ _ => True) ?_ ?_
+  · refine post_store (name := name) hI he hv hnr ?_
+    intro f; exact ⟨rfl, rfl, rfl, rfl⟩
+  · intro _ s' hIs' hle _
+    exact Post.pure hIs' (okObj_mono hle _ hv)
+
+theorem post_envUpdate {st : St} (hI : Inv st) {e : Nat} (he : e < st.frames.size) (name : String) {found val : Obj}
+    (hfound : okObj st.frames.size found = true)
+    (hval : okObj st.frames.size val = true) : Post (envUpdate e name found val) st OkO := by
+  unfold envUpdate
+  dsimp only
+  -- the store part
+  have hrest : ∀ v, okObj st.frames.size v = true → notRef v = true →
+      Post (match (match found with | Obj.ref re rn => (re, rn) | _ => (e, name)) with
+        | (e, name) => do
+          modifyFrame e fun f =>
+              { store := setStore f.store name v, outer := f.outer, depth := f.depth, cacheKey := f.cacheKey,
+                function := f.function, getMiss := f.getMiss, cantCache := f.cantCache,
+                numSet := if (f.depth == 0) = true then f.numSet + 1 else f.numSet }
+          pure v) st OkO := by
+    intro v hv hnr
+    have this : (match found with | Obj.ref re rn => (re, rn) | _ => (e, name)).1 < st.frames.size := by
+      cases found <;> first | exact he | (simp only [okObj, decide_eq_true_eq] at hfound; exact hfound)
+    generalize (match found with | Obj.ref re rn => (re, rn) | _ => (e, name)) = p at this
+    obtain ⟨e', name'⟩ := p
+    have he' : e' < st.frames.size := this
+    dsimp only
+    refine Post.bind (Q := fun _ _ => True) ?_ ?_
+    · refine post_store (name := name') hI he' hv hnr ?_
+      intro f; exact ⟨rfl, rfl, rfl, rfl⟩
+    · intro _ s' hIs' hle _
+      exact Post.pure hIs' (okObj_mono hle _ hv)
+  split
+  · refine Post.bind (post_valueOf hI hval) ?_
+    rintro v s hIs _ ⟨rfl, hv, hnr⟩
+    exact hrest v hv hnr
+  · next hnr =>
+    refine Post.bind (Q := fun v s => s = st ∧ v = val) (Post.pure hI ⟨rfl, rfl⟩) ?_
+    rintro v s hIs _ ⟨rfl, rfl⟩
+    refine hrest v hval ?_
+    cases v with
+    | ref e' n' => exact (hnr e' n' rfl).elim
+    | _ => rfl
+
+theorem post_setNoChecks {st : St} (hI : Inv st) {e : Nat} (he : e < st.frames.size) (name : String) {val : Obj}
+    (hval : okObj st.frames.size val = true) (create : Bool) : Post (setNoChecks e name val create) st OkO := by
+  obtain ⟨f, hf⟩ := frame_exists he
+  unfold setNoChecks
+  split
+  · exact post_envCreate hI he name hval
+  refine Post.bind_read (runM_getFrame hf) ?_
+  split
+  · next r hl =>
+    obtain ⟨k, hk⟩ := lookupStore_mem hl
+    exact post_envUpdate hI he name ((hI.frameOk hf).store k _ hk).1 hval
+  · refine Post.bind (post_makeRef hI he name) ?_
+    rintro r s hIs hle ⟨hr, hsz, _⟩
+    have hval' : okObj s.frames.size val = true := okObj_mono hle _ hval
+    split
+    · next re rn =>
+      have hre : re < s.frames.size := by simpa [okObj] using hr _ rfl
+      refine Post.bind (post_valueOf hIs hval') ?_
+      rintro v s' hIs' _ ⟨rfl, hv, hnr⟩
+      refine Post.bind (Q := fun _ _ => True) ?_ ?_
+      · refine post_store (name := rn) hIs hre hv hnr ?_
+        intro f; exact ⟨rfl, rfl, rfl, rfl⟩
+      · intro _ s'' hIs'' hle' _
+        exact Post.pure hIs'' (okObj_mono hle' _ hval')
+    · exact post_envCreate hIs (by omega) name hval'
+
+theorem post_createOrSet {st : St} (hI : Inv st) {e : Nat} (he : e < st.frames.size) (name : String) {val : Obj}
+    (hval : okObj st.frames.size val = true) (create : Bool) : Post (createOrSet e name val create) st OkO := by
+  unfold createOrSet
+  dsimp only
+  have hrest : ∀ s : St, Inv s → st.frames.size ≤ s.frames.size →
+      Post (do
+        let st ← get
+        if st.extNames.contains name = true then pure (Obj.error ("attempt to change internal function " ++ name))
+          else setNoChecks e name val create) s OkO := by
+    intro s hIs hle
+    refine Post.bind_read (runM_get s) ?_
+    split
+    · exact Post.pure hIs (by simp [OkO, okObj])
+    · exact post_setNoChecks hIs (by omega) name (okObj_mono hle _ hval) create
+  split
+  · refine Post.bind (post_envGet hI he name) ?_
+    intro r s hIs hle hr
+    split
+    · next old =>
+      have hold : okObj s.frames.size old = true := hr old rfl
+      have hfin : ∀ (same : Bool) (s' : St), Inv s' → s.frames.size ≤ s'.frames.size →
+          Post (if (!same) = true then pure (Obj.error ("attempt to change constant " ++ name)) else do
+            let st ← get
+            if st.extNames.contains name = true then pure (Obj.error ("attempt to change internal function " ++ name))
+              else setNoChecks e name val create) s' OkO := by
+        intro same s' hIs' hle'
+        split
+        · exact Post.pure hIs' (by simp [OkO, okObj])
+        · exact hrest s' hIs' (by omega)
+      split
+      · refine Post.bind (Q := fun _ s' => s' = s) (Post.pure hIs rfl) ?_
+        rintro same s' hIs' _ rfl
+        exact hfin same s' hIs' (Nat.le_refl _)
+      · refine Post.bind (post_valueOf hIs hold) ?_
+        rintro o s' hIs' _ ⟨rfl, _, _⟩
+        refine Post.bind (post_valueOf hIs' (okObj_mono hle _ hval)) ?_
+        rintro v s' hIs'' _ ⟨rfl, _, _⟩
+        refine Post.bind (Q := fun _ s'' => s'' = s') (Post.liftR hIs'' (cmp_npr o v) (fun _ _ => rfl)) ?_
+        rintro c s'' hIs3 _ rfl
+        refine Post.bind (Q := fun _ s3 => s3 = s'') (Post.pure hIs3 rfl) ?_
+        rintro same s3 hIs4 _ rfl
+        exact hfin same s3 hIs4 (Nat.le_refl _)
+    · exact hrest s hIs hle
+  · exact hrest st hI (Nat.le_refl _)
+
+theorem post_envSet {st : St} (hI : Inv st) {e : Nat} (he : e < st.frames.size) (name : String) {val : Obj}
+    (hval : okObj st.frames.size val = true) : Post (envSet e name val) st OkO :=
+  post_createOrSet hI he name hval false
+
+end Grol.E
+
+namespace Grol.E
+
+theorem post_setFrame {st : St} (hI : Inv st) {e : Nat} {f f' : Frame} (he : st.frames[e]? = some f)
+    (hd : f'.depth = f.depth) (ho : f'.outer = f.outer) (hf : f'.function = f.function)
+    (hs : StoreOk st.frames e f.depth f'.store) :
+    Post (setFrame e f') st (fun _ s => s.frames.size = st.frames.size) := by
+  unfold setFrame
+  exact Post.modify (hI.setFrame he hd ho hf hs) (by simp) (by simp)
+
+theorem post_envDelete_go (name : String) :
+    ∀ (fuel : Nat) (st : St), Inv st → ∀ e, e < st.frames.size → Post (envDelete.go name fuel e) st OkO := by
+  intro fuel
+  induction fuel with
+  | zero =>
+    intro st hI e _
+    unfold envDelete.go
+    exact Post.pure hI (by simp [OkO, okObj])
+  | succ fuel ih =>
+    intro st hI e he
+    obtain ⟨f, hf⟩ := frame_exists he
+    have hfok := hI.frameOk hf
+    unfold envDelete.go
+    refine Post.bind_read (runM_getFrame hf) ?_
+    dsimp only
+    generalize hf2 : (if (f.depth == 0) = true then { f with numSet := f.numSet + 1 } else f) = f2
+    have h2 : f2.depth = f.depth ∧ f2.outer = f.outer ∧ f2.function = f.function ∧ f2.store = f.store := by
+      subst hf2; split <;> exact ⟨rfl, rfl, rfl, rfl⟩
+    obtain ⟨h2d, h2o, h2f, h2s⟩ := h2
+    split
+    · refine Post.bind (Q := fun _ _ => True) ?_ ?_
+      · refine (post_setFrame hI hf (by exact h2d) (by exact h2o) (by exact h2f) ?_).mono (fun _ _ _ _ _ => trivial)
+        show StoreOk st.frames e f.depth (delStore f2.store name)
+        rw [h2s]; exact hfok.store.delStore name
+      · intro _ s hIs _ _
+        exact Post.pure hIs (by simp [OkO, okObj])
+    · refine Post.bind (post_setFrame hI hf h2d h2o h2f (by rw [h2s]; exact hfok.store)) ?_
+      intro _ s hIs _ hsz
+      split
+      · next o ho =>
+        rw [h2o] at ho
+        have := (hfok.outer o ho).1
+        exact ih s hIs o (by omega)
+      · exact Post.pure hIs (by simp [OkO, okObj])
+
+theorem post_envDelete {st : St} (hI : Inv st) {e : Nat} (he : e < st.frames.size) (name : String) :
+    Post (envDelete e name) st OkO := by
+  unfold envDelete
+  refine Post.bind_read (runM_get st) ?_
+  exact post_envDelete_go name _ st hI e he
+
+end Grol.E
